@@ -938,6 +938,31 @@ pub fn run_server(cfg: &ScenCfg, out: &mut RunOut) {
             }
         }
     };
+    // ---- refused additions must leave the filter as it was
+    if chance(1, 3) {
+        for _ in 0..1 + choose(2) {
+            // (a pattern without any `*` is a plain address for the C ABI: an AnyOf filter of one)
+            let fixed = match &spec {
+                FilterSpec::Any => true,
+                FilterSpec::Wildcard(w) => w.iter().any(|x| x.is_none()),
+                _ => false,
+            };
+            let text = if fixed && chance(2, 3) {
+                // well-formed address, but this kind of filter cannot take additions
+                super::sessions::gen_peer_ip_pub(base).to_string()
+            } else {
+                ["", "1.2.3", "10.0.0.*", "300.1.1.1", "not an address", "1.2.3.4.5"][choose(6) as usize].to_string()
+            };
+            let c = CString::new(text.clone()).unwrap();
+            let rc = unsafe { ffi::rodbus_address_filter_add(filter, c.as_ptr()) };
+            if rc == 0 {
+                out.violate("C16", "ffi_filter_add", format!("rodbus_address_filter_add({:?}) on filter {:?} succeeded", text, spec));
+                return;
+            }
+            out.probe("ffi_filter_add_refused");
+            hash_bytes(&mut wl, text.as_bytes());
+        }
+    }
     // ---- endpoints
     let map = unsafe { ffi::rodbus_device_map_create() };
     let nunits = 1 + choose(2) as usize;
